@@ -326,4 +326,68 @@ theorem arff_level_qmark_counterexample :
     encodeCell (.nominal [[67], [63]]) [63] = .ok (.cat [63] [[67], [63]]) ∧ encodeCell (.nominal [[67]]) [63] = .ok .missing := by
   decide
 
+/-! ### (c) whole dense ARFF files -/
+
+/-- the whole `ArffReader` on a whole dense file of the Weka / OpenML-style writer: attribute lines
+(`AttrW.line`), the `@data` line in any case, one line per row (`denseRowLine`: values bare or quoted
+in the file's quote style, `?` for a missing cell, a comma and blanks between them).  The reader
+returns the column names, and per row the encoded cells (floats as their literal, strings, `Categorical`
+with the levels in written order, `None` for `?`) and the `missing` flag = "the row has a `?`".
+By `arff_framing_invariance`, `arff_*_keyword_case` and the two comment theorems the same holds with
+blank lines, kept terminators, comments and `@relation` lines added.
+Hypotheses, each forced by a recorded finding or the format itself: the header hypotheses of
+`arff_header_roundtrip` (F8, F9); `denseRowWOk`: cells fit their columns, one quote style and no
+other-quote character (F11), strings/levels hold no `?` (F12, F15), no level is named `?` (F13), a
+line does not begin with `%`; the first data line is not wrapped in braces (F17); at least one row
+(no rows: the reader returns nothing, `ArffResult.empty`). -/
+theorem arff_dense_table_roundtrip (q : Nat) (hq : q = SQ ∨ q = DQ) (also : Nat → Bool) (attrs : List AttrW) (dkw : Text)
+    (rows : List (Nat × List (Bool × CellW)))
+    (hattrs : attrs ≠ []) (hok : ∀ a ∈ attrs, a.ok true = true) (hnd : (attrs.map (·.name.2)).Nodup)
+    (hdkw : lowerAscii dkw = kwData) (hne : rows ≠ [])
+    (hrows : ∀ r ∈ rows, denseRowWOk q also r.1 (attrs.map (·.typ.enc true)) r.2 = true)
+    (hfirst : ∀ r, rows.head? = some r → notBraced (denseRowLine q also r.1 r.2) = true) :
+    arffReadN (attrs.map (·.line q also) ++ dkw :: rows.map (fun r => denseRowLine q also r.1 r.2)) =
+      .ok (.dense (attrs.map (·.name.2))
+        (rows.map fun r => ⟨rowOut (attrs.map (·.typ.enc true)) r.2, r.2.any (·.2.isMissing)⟩)) :=
+  arff_dense_table' q hq also attrs dkw rows hattrs hok hnd hdkw hne hrows hfirst
+
+example : denseRowWOk SQ (fun _ => false) 1 [.numeric, .str, .nominal [[120], [121, 32, 122]]]
+    [(false, .num [49, 46, 53]), (true, .str [115, 32, 116]), (true, .cat [121, 32, 122])] = true ∧
+    denseRowWOk SQ (fun _ => false) 0 [.numeric, .str, .nominal [[120], [121, 32, 122]]]
+    [(false, .missing), (false, .str [97]), (false, .missing)] = true := by decide
+
+/-- the `missing` flag of a written dense line is "some cell is the missing marker" -/
+theorem arff_dense_missing_flag (q : Nat) (hq : q = SQ ∨ q = DQ) (also : Nat → Bool) (pad : Nat) (encs : List Enc)
+    (row : List (Bool × CellW)) (hc : rowCellsOk encs row = true) :
+    denseMissing (denseRowLine q also pad row) = row.any (·.2.isMissing) := denseMissing_written q hq also pad encs row hc
+
+/-! ### (a) empty decompressor outputs in mid-stream -/
+
+/-- a decompressor may return `b''` for any number of chunks (zlib does for the chunks that only
+hold the gzip header, or the end of one member): `Decomp.skip n` swallows an `n`-byte header and is lawful -/
+theorem skip_lawful (n : Nat) : (Decomp.skip n).Lawful := skip_lawful' n
+
+/-- … so for such a stream, too, every cutting gives the lines of the whole decoded text: the loop
+must go on after an empty decompressor output (the seeded change `while data := decomp(chunk)` stopped there) -/
+theorem delivery_invariance_header_skip (n : Nat) (cs : List (List Nat)) :
+    readFix (Decomp.skip n) cs = readWhole (Decomp.skip n) cs.flatten := chunk_invariance' (Decomp.skip n) (skip_lawful' n) cs
+
+example : decompChunks (Decomp.skip 3) 3 [[1, 2], [3], [97, 10], [98]] = [[], [], [97, 10], [98]] ∧
+    readFix (Decomp.skip 3) [[1, 2], [3], [97, 10], [98]] = .ok [[97], [98]] := by decide
+
+/-- empty chunks / empty decompressed pieces anywhere in the stream change nothing -/
+theorem delivery_empty_chunks_invariance {σ} (D : Decomp σ) (hD : D.Lawful) (cs : List (List Nat)) :
+    readFix D (cs.filter (· ≠ [])) = readFix D cs := by
+  rw [chunk_invariance' D hD, chunk_invariance' D hD, flatten_filter_ne_nil]
+
+/-! ### reader objects: what is read from an input does not depend on what the object read before -/
+
+/-- frame theorem for ONE reader object (`CsvReader(has_header, **dialect)`, `ArffReader()`, `LibsvmReader()`,
+`ManikReader()`) used on any history of inputs, each read in full or abandoned after its first row: the
+k-th use returns exactly what a fresh reader returns on input k.  (In the model a reader carries nothing
+but its constructor arguments; that the real objects behave like this is what the `reuse` cases check —
+the seeded change that cached the CSV header map on the instance breaks it.) -/
+theorem reader_history_frame (r : ReaderKind) (hist : List (List Text × Bool)) :
+    readerRun r hist = hist.map (fun i => if i.2 then none else some (readerParse r i.1)) := readerRun_frame' r hist
+
 end Coba.C12
